@@ -67,7 +67,8 @@ class _Return(Exception):
 
 
 class _Redispatch(Exception):
-    pass
+    def __init__(self, consumed=False):
+        self.consumed = consumed      # out-of-space of a char-append: the carrying transition has consumed its byte
 
 
 class _SkipRest(Exception):
@@ -249,7 +250,7 @@ class Machine:
             o = a.into_storage
             v = self.eval(a.value_expr, cfg, inval, in_end, in_start)
             cfg.vars[o.name] = carith.convert(self.var_type(o), v[1])
-            events.append(("set", o.name, cfg.vars[o.name]))
+            events.append(("set", o.name, cfg.vars[o.name], bool(a.is_timing_strict())))
             return
         if isinstance(a, nmfu.SetToStr):
             o = a.into_storage
@@ -269,7 +270,7 @@ class Machine:
             buf = cfg.vars[o.name]
             if len(buf) == self.capacity(o):
                 cfg.state = a.end_target
-                events.append(("overflow", o.name))
+                events.append(("overflow", o.name, "char" if isinstance(a, nmfu.AppendCharTo) else "byte"))
                 self.overflow_log.append((self._cur_source, a))
                 raise _Redispatch()
             if isinstance(a, nmfu.AppendTo):
@@ -417,7 +418,14 @@ class Machine:
                     pass
             except _Return as r:
                 return Result(r.code, ptr, events)
-            except _Redispatch:
+            except _Redispatch as rd:
+                if rd.consumed and not t.is_fallthrough and not isinstance(t, nmfu.DFConditionalTransition):
+                    if not advanced:
+                        ptr += 1
+                    if ptr == n:
+                        return Result(OK, ptr, events)
+                    inval = data[ptr]
+                    seen.clear()
                 continue
             if t.is_fallthrough:
                 if target_known:
